@@ -186,6 +186,13 @@ def extract(repo):
     if not mm:
         raise Fail('build_tree: `let min_amount = ..` not found')
     g['fn_min_amount'] = LeanFn(['max_amount'], [], arith_expr(mm.group(1), {'max_amount'}, 'build_tree'))
+    # the key comparison of the look-ups through the file: inner nodes and leaves must use the same order (`K::Ref`)
+    bsearch = fn_body(nd, 'binary_search_serialized', 'in bptree/node.rs')
+    cmps = re.findall(r"([\w\.\(\)]+)\.cmp\(\s*&?\s*([\w:<>]+(?:\([^()]*\))?)\s*\)", bsearch)
+    if len(cmps) != 1:
+        raise Fail(f'binary_search_serialized: expected one key comparison, found {len(cmps)}')
+    mk = re.search(r"let\s+" + re.escape(cmps[0][1].strip()) + r"\s*=\s*([\w:]+)\(", bsearch)
+    g['NODE_SEARCH_CMP'] = [cmps[0][0].replace(' ', ''), mk.group(1) if mk else cmps[0][1].replace(' ', '')]
     bm = read(repo, 'src/blob/index/bptree/meta.rs')
     g['layout_TreeMeta'] = struct_fields(bm, 'TreeMeta')
     g['layout_NodeMeta'] = struct_fields(bm, 'NodeMeta')
